@@ -22,9 +22,18 @@ class NativeResult:
         self.case = None
 
 
+class DView(dict):
+    """native snapshot of a dict, remembering the object it came from"""
+    ref = None
+
+
 def nview(v):
     if isinstance(v, list):
         return NView(list(v), ref=v)
+    if isinstance(v, dict):
+        d = DView(v)
+        d.ref = v
+        return d
     tn = type(v).__name__
     if tn in ("Row", "Table") and hasattr(v, "_indexes"):
         from .xmlnative import NVaultView
